@@ -7,7 +7,14 @@ MID = ["C01_ClosedDiffusionMid", "C01_ClosedCentralMid", "C01_ClosedUpwindMid", 
 PERIODIC = ["C01_PeriodicDiffusion", "C01_PeriodicCentral", "C01_PeriodicUpwind"]
 
 
+OPEN = ["C01_OpenDiffusion", "C01_OpenCentral", "C01_OpenUpwind"]
+
+
 def clauses_for(cfg):
+    if cfg["closed"] is False:
+        # open boundaries: change of the integral = net boundary flux (geometric face areas); the
+        # SphericalGrid3D volumes are a known finding, its open clause is not evaluated
+        return OPEN if cfg["cls"] != "SphericalGrid3D" else []
     if cfg["closed"] == "periodic":
         cl = list(PERIODIC)
     else:
@@ -34,7 +41,8 @@ def run(tier, seed):
                  generator=maxdrive.gen, observe=maxdrive.observe)
     return opscheck.run_property(
         "C01", tier, seed, design=opscheck.design_ops("C01", None), clauses_for=clauses_for, n_quick=18, n_thorough=150,
-        gen_kw=[{"closed": True}, {"closed": True, "nmax": 2}, {"closed": "periodic"}], parts=[steps],
+        gen_kw=[{"closed": True}, {"closed": True, "nmax": 2}, {"closed": "periodic"}, {"allow_periodic": False}],
+        parts=[steps],
         sig_extra=lambda cl, e, v: ({"periodic": bool(e["obs"].get("periodic_any"))} if cl.startswith("C01_ClosedStep") else {}),
         rule="9 grid classes x seeded non-uniform spacings x coefficient / velocity fields that vanish on the domain "
              "boundary (closed) or are periodic along uniform-ended axes; V-weighted column sums of every flux-form "
